@@ -18,7 +18,10 @@ with durations derived from the group / window itself (they fire while the
 operator is failing its groups), every callback raising at every position.
 harness/c09_held.py (ORACLE-ONLY) runs all callback operators subscribed WITH a
 scheduler that does not run actions at once (hand-stepped / TestScheduler with
-several notifications per tick): the on_error must come in the raising step."""
+several notifications per tick): the on_error must come in the raising step.
+harness/c09_palette.py (ORACLE-ONLY) re-runs the c09_rest catalogue and the callback
+operators of the C05/C06 tables with the injected exception drawn from a palette of
+classes the library itself catches somewhere (StopIteration, KeyError, ...)."""
 import json
 import random
 
@@ -309,6 +312,20 @@ def run(chk):
                         "TestScheduler with several source notifications due on the same tick), further notifications "
                         "pushed before s runs again; the exception must be delivered as on_error in the very step in "
                         "which the callback raised (see non_immediate_subscribe_scheduler: its own rule and counts)")
+    # ---- ORACLE-ONLY family: the injected exception drawn from a PALETTE of classes the library itself uses for
+    # control flow or catches specifically (StopIteration, KeyError, IndexError, ..., its own exception classes,
+    # a user subclass of each), for every callback of the c09_rest catalogue and of the C05/C06 tables
+    import c09_palette
+    pal_nt = c09_palette.run_family(chk)
+    chk.cov["distinct_nontrivial"] += len(pal_nt)
+    chk.cov["rule"] += ("; plus the oracle-only family of harness/c09_palette.py: every (operator, callback) of the "
+                        "c09_rest catalogue and every callback operator of the C05/C06 tables with the injected "
+                        "exception drawn from EVERY entry of a palette of exception classes that the library uses for "
+                        "its own control flow or catches specifically (StopIteration, StopAsyncIteration, IndexError, "
+                        "KeyError, ValueError, TypeError, AttributeError, AssertionError, its own exception classes, "
+                        "TimeoutError, the asyncio / concurrent.futures exceptions deriving from Exception, "
+                        "RuntimeError('generator raised StopIteration'), and a user subclass of each): the subscriber "
+                        "must get on_error with that very object (see exception_palette: its own rule and counts)")
     return chk.finish(
         trusted_extra=["raise bookkeeping in harness/k2.py (UserError records the input position at which it was raised)"],
         assumptions=["timed mappers are exercised with raising callbacks against their models in C15-C17 and here "
@@ -335,6 +352,9 @@ def replay(chk, path):
     if "held_case" in d:
         import c09_held
         return c09_held.replay_case(chk, d, path)
+    if "palette_table_case" in d:
+        import c09_palette
+        return c09_palette.replay_case(chk, d, path)
     if "cold_case" in d:
         c = d["cold_case"]
         probs, info = cold_case(c["table"], c["operator"], c["source"], c["case_seed"])
